@@ -224,7 +224,7 @@ func (w *world) doExec(i int, q AQ, r AR, knownIDs map[int]known) (COb, execResu
 }
 
 // doDump: GET /dump, decoded into [id, rem, crem, age] per entry.
-func (w *world) doDump(i int, withAge bool) ([]byte, error) {
+func (w *world) doDump(i int, withAge bool, set bool) ([]byte, error) {
 	du := nowUnix()
 	code, body := w.inst(i).api("GET", "/dump", nil)
 	w.checkClock()
@@ -248,8 +248,10 @@ func (w *world) doDump(i int, withAge bool) ([]byte, error) {
 		}
 		xs = append(xs, ev{"id": id, "rem": clampInt(e.GetMsgExpirationTime() - du), "crem": clampInt(e.GetCacheExpirationTime() - du), "age": age})
 	}
-	w.events = append(w.events, ev{"ev": "Dump", "i": i, "ents": xs})
-	w.lastDump = body
+	w.events = append(w.events, ev{"ev": "Dump", "i": i, "ents": xs, "set": set})
+	if set {
+		w.lastDump = body
+	}
 	return body, nil
 }
 
